@@ -5,7 +5,7 @@ lean/Ladybug/Props/C13.lean (lemmas: Proofs/C13Lemmas.lean); driver: drv_c13.
 Tie: correspondence on the ops below (values are distinct ids where the code only moves them,
 rationals where it interpolates).
 
-The model, the theorems and the oracle describe the code WITH fixes/C13_*.patch applied (six small
+The model, the theorems and the oracle describe the code WITH fixes/C13_*.patch applied (ten small
 repairs, see the patch headers); on a tree without them this check reports a VIOLATION.
 """
 import contextlib
@@ -17,7 +17,8 @@ from harness.core import err_name, run_oracle_cases
 
 PROP = 'C13'
 PROOF_MODULES = ['Ladybug.Props.C13']
-GREP_MODULES = ['Ladybug.Model.Resample', 'Ladybug.Proofs.C13Lemmas', 'Ladybug.Proofs.C13Interp', 'Ladybug.Drv.C13',
+GREP_MODULES = ['Ladybug.Model.Resample', 'Ladybug.Proofs.C13Lemmas', 'Ladybug.Proofs.C13Interp',
+                'Ladybug.Proofs.C13Contain', 'Ladybug.Proofs.C13Holes', 'Ladybug.Drv.C13',
                 'Ladybug.Model.AP', 'Ladybug.Model.Cal', 'Ladybug.Py', 'Ladybug.DrvCore']
 RULE = ('correspondence: header periods from a boundary product (one day / few days / months / annual / '
         'wrapping the year end; hour windows full, partial, overnight; 8 timesteps; leap) x data = subsets '
@@ -730,14 +731,20 @@ def _check_validate_keys(op, inp):
         sm, em, sh, eh = nap.st_month, nap.end_month, nap.st_hour, nap.end_hour
         pos = [(((k[0] - sm) % 12) if nap.is_reversed else k[0], k[1]) for k in v.datetimes]
         inside = []
+        causes = set()
         for k in v.datetimes:
             mo_ok = (sm <= k[0] <= em) if not nap.is_reversed else (k[0] >= sm or k[0] <= em)
             h_ok = (sh <= k[1] <= eh) if sh <= eh else (k[1] >= sh or k[1] <= eh)
-            mi_ok = k[2] % (60 // nap.timestep) == 0 and (k[2] == 0 or k[1] < eh or (sh, eh) == (0, 23))
-            inside.append(mo_ok and h_ok and mi_ok)
-        if all((sm <= k[0] <= em) if not nap.is_reversed else (k[0] >= sm or k[0] <= em) for k in v.datetimes) \
-                and all((sh <= k[1] <= eh) if sh <= eh else (k[1] >= sh or k[1] <= eh) for k in v.datetimes):
-            cause = 'minute'
+            grid_ok = k[2] % (60 // nap.timestep) == 0
+            mi_ok = k[2] == 0 or k[1] != eh or (sh, eh) == (0, 23)
+            inside.append(mo_ok and h_ok and grid_ok and mi_ok)
+            if not (mo_ok and h_ok):
+                causes.add('other')
+            elif not grid_ok:
+                causes.add('minute_grid')
+            elif not mi_ok:
+                causes.add('minute_after_end_hour')
+        cause = '+'.join(sorted(causes))
     if op == 'validate_mph':
         pos = [p + (k[2],) for p, k in zip(pos, v.datetimes)]
         unordered = any(a >= b for a, b in zip(pos, pos[1:]))
@@ -897,7 +904,11 @@ def _corpus():
                              'data': [[246840, 1], [247425, 2]], 'tag': 'ok'}),
         ('validate_hourly', {'ap': [12, 30, 0, 1, 2, 12, 1, False], 'dl': False,
                              'data': [[2340, 1], [217440, 2]], 'tag': 'ok'}),
+        # sub-hourly keys: header timestep kept / repaired (repaired: monthly_keeps_timestep_leap, mph_fits_timestep)
         ('validate_mph', {'ap': [1, 1, 0, 12, 31, 23, 2, False], 'data': [[[3, 4, 30], 1], [[3, 4, 0], 2]]}),
+        ('validate_mph', {'ap': [1, 1, 0, 12, 31, 23, 1, True], 'data': [[[3, 4, 20], 1], [[3, 4, 30], 2]]}),
+        ('validate_mph', {'ap': [1, 1, 0, 6, 30, 12, 2, False], 'data': [[[3, 12, 30], 1], [[3, 4, 0], 2]]}),
+        # wrapping header inside one month (repaired: monthly_wrapping_same_month)
         ('validate_monthly', {'ap': [1, 15, 0, 1, 14, 23, 1, False], 'data': [[1, 1], [2, 2], [7, 3], [10, 4], [11, 5]]}),
         ('validate_mph', {'ap': [7, 31, 0, 7, 30, 23, 1, False], 'data': [[[4, 23, 0], 1]]}),
         ('validate_mph', {'ap': [12, 30, 9, 1, 2, 9, 1, True], 'data': [[[5, 9, 0], 1], [[1, 23, 0], 2]]}),
@@ -998,6 +1009,6 @@ LEVEL_TEXT = ('Machine-checked Lean 4 theorems over an executable model of the v
 LEVEL_NOTE = ('Trusted: Lean kernel; axioms propext/Classical.choice/Quot.sound only; the hand-written model '
               '(tied by the correspondence run on generated inputs only); the C04/C08 models it builds on; '
               'float interpolation compared within 1e-9, theorems over exact rationals. The model describes '
-              'the code with the six fixes/C13_*.patch repairs.')
-TECHNIQUE = ('Lean 4 proof (permutation/sortedness of merge sort and rotation, induction over the hole list, '
-             'telescoping sums over Rat) about a model tied to datacollection.py by differential correspondence')
+              'the code with the ten fixes/C13_*.patch repairs.')
+TECHNIQUE = ('Lean 4 proof (permutation/sortedness of merge sort and rotation, C04 membership predicate of the '
+             'output period, equally spaced cyclic step grid + induction over the hole list, telescoping sums over Rat) about a model tied to datacollection.py by differential correspondence')
